@@ -11,7 +11,10 @@ package codec
 // stores, copy into a window, bytes.Buffer Write*/binary.Write, φ-joins of
 // alternatives, up to two levels of in-module helper, counted loops over a
 // local table (unroll.go), buffers made at their final computed size
-// (symbuf.go) — and returns Pieces that carry those values. Nothing is executed.
+// (symbuf.go), strings.Builder, local writer objects with append-only methods
+// and []byte variables extended by closures (objbuf.go), struct values /
+// single-assignment cells / running-offset cells (cells.go) — and returns
+// Pieces that carry those values. Nothing is executed.
 //
 // Soundness notes. A fixed buffer's content is trusted only if every write to
 // it dominates every read of it (a write under a condition that executes at
